@@ -80,7 +80,7 @@ Theorem C11_cache_transparent : forall fx H w h,
   (forall x y, H x = H y -> x = y) -> wf_history h ->
   (fx2 fx = true \/ g_F2 fx H h = false) -> (fx3 fx = true \/ g_F3 fx H h = false) ->
   (fx10 fx = true \/ g_F10 fx H h = false) ->
-  g_F4 fx H h = false -> g_F6 fx H h = false -> g_F7 fx H h = false ->
+  g_F4 fx H h = false -> (fx6 fx = true \/ g_F6 fx H h = false) -> g_F7 fx H h = false ->
   map sr_out (run_cached fx H w [] h) = map fst (run_fresh w h).
 Proof. exact cache_transparent. Qed.
 Print Assumptions C11_cache_transparent.
@@ -93,6 +93,17 @@ Theorem C11_cache_transparent_repaired : forall H w h,
   map sr_out (run_cached fx_all H w [] h) = map fst (run_fresh w h).
 Proof. exact cache_transparent_repaired. Qed.
 Print Assumptions C11_cache_transparent_repaired.
+
+(** … and with fixes/C11-F6.diff ([fx_all6]: the keys of the generic contextualizer and the generic
+    authenticator cover the forwarded headers and cookies with their values, the authenticator's also its
+    payload template): the guard of C11-F6 is gone, whatever the instances and requests.  The guard of
+    C11-F4 (open) then also covers the two new digests over forwarded names and values. *)
+Theorem C11_cache_transparent_repaired6 : forall H w h,
+  (forall x y, H x = H y -> x = y) -> wf_history h ->
+  g_F4 fx_all6 H h = false -> g_F7 fx_all6 H h = false ->
+  map sr_out (run_cached fx_all6 H w [] h) = map fst (run_fresh w h).
+Proof. exact cache_transparent_repaired6. Qed.
+Print Assumptions C11_cache_transparent_repaired6.
 
 (** the hypotheses of the two main theorems are satisfied by a history with
     two subjects, two values and a repeated request *)
